@@ -1,0 +1,19 @@
+//go:build verif
+
+package batchrelease
+
+import (
+	"sigs.k8s.io/controller-runtime/pkg/client"
+	"sigs.k8s.io/controller-runtime/pkg/handler"
+)
+
+// VerifWorkloadEventHandler returns the handler the BatchRelease controller registers for workload events
+// (verification harness only; compiled with -tags verif).
+func VerifWorkloadEventHandler(r client.Reader) handler.EventHandler {
+	return &workloadEventHandler{Reader: r}
+}
+
+// VerifPodEventHandler returns the handler the BatchRelease controller registers for pod events.
+func VerifPodEventHandler(r client.Reader) handler.EventHandler {
+	return &podEventHandler{Reader: r}
+}
